@@ -418,4 +418,130 @@ theorem bestMatch_eq_argmax (self : List (Str × κ)) (offers : List Str) :
 
 end NegLemmas
 
+/-! ### well-formed media-range text -/
+
+/-- no `/`, no `;`, no whitespace -/
+def NoDelim (x : Str) : Prop := ∀ c ∈ x, c ≠ '/' ∧ c ≠ ';' ∧ Py.isSpace c = false
+
+/-- no `/`, no `;` -/
+def NoSlashSemi (x : Str) : Prop := ∀ c ∈ x, c ≠ '/' ∧ c ≠ ';'
+
+theorem NoDelim.noSlashSemi {x : Str} (h : NoDelim x) : NoSlashSemi x := fun c hc => ⟨(h c hc).1, (h c hc).2.1⟩
+
+def paramsText (ps : List Str) : Str := ps.flatMap fun p => ';' :: ' ' :: p
+
+/-- `type/subtype; p1; p2 …` as `dump_options_header` writes it -/
+def renderMime (t s : Str) (ps : List Str) : Str := t ++ '/' :: (s ++ paramsText ps)
+
+def piecesOf (x : Str) : List Str → List (Str × Bool)
+  | [] => [(x, false)]
+  | p :: ps => (x, true) :: piecesOf (' ' :: p) ps
+
+theorem mimePieces_run (x rest cur : Str) (h : NoSlashSemi x) :
+    mimePieces (x ++ rest) cur = mimePieces rest (x.reverse ++ cur) := by
+  induction x generalizing cur with
+  | nil => rfl
+  | cons c t ih =>
+    have hc := h c (by simp)
+    have h1 : (c == '/') = false := by simpa using hc.1
+    have h2 : (c == ';') = false := by simpa using hc.2
+    simp only [List.cons_append, mimePieces, h1, h2, Bool.false_eq_true, ↓reduceIte]
+    rw [ih (c :: cur) (fun y hy => h y (by simp [hy]))]
+    simp
+
+theorem mimePieces_params (x cur : Str) (ps : List Str) (hx : NoSlashSemi x)
+    (hps : ∀ p ∈ ps, NoSlashSemi p) :
+    mimePieces (x ++ paramsText ps) cur = piecesOf (cur.reverse ++ x) ps := by
+  induction ps generalizing x cur with
+  | nil =>
+    simp only [paramsText, List.flatMap_nil]
+    rw [mimePieces_run x [] cur hx]
+    simp [mimePieces, piecesOf]
+  | cons p ps ih =>
+    have hp : NoSlashSemi (' ' :: p) := by
+      intro c hc
+      rcases List.mem_cons.mp hc with rfl | hc
+      · exact ⟨by decide, by decide⟩
+      · exact hps p (by simp) c hc
+    have e : paramsText (p :: ps) = ';' :: ((' ' :: p) ++ paramsText ps) := by
+      simp [paramsText]
+    rw [e, mimePieces_run x _ cur hx]
+    simp only [mimePieces]
+    have h1 : (';' == '/') = false := by decide
+    simp only [h1, Bool.false_eq_true, ↓reduceIte, BEq.rfl, piecesOf]
+    rw [ih (' ' :: p) [] hp (fun q hq => hps q (by simp [hq]))]
+    simp
+
+theorem dropWhile_head_false' {p : Char → Bool} {s : Str} (h : ∀ c, s.head? = some c → p c = false) :
+    s.dropWhile p = s := by
+  cases s with
+  | nil => rfl
+  | cons c t => simp [h c rfl]
+
+theorem rstrip_noSpace (s : Str) (h : ∀ c ∈ s, Py.isSpace c = false) : Py.rstripBy Py.isSpace s = s := by
+  unfold Py.rstripBy
+  rw [dropWhile_head_false' (s := s.reverse)]
+  · simp
+  · intro c hc
+    have : c ∈ s.reverse := List.mem_of_mem_head? hc
+    exact h c (by simpa using this)
+
+theorem mimeTrim_params (p : Str) (ps : List Str) (hp : ∀ c ∈ p, Py.isSpace c = false)
+    (hps : ∀ q ∈ ps, ∀ c ∈ q, Py.isSpace c = false) :
+    mimeTrim true (piecesOf (' ' :: p) ps) = p :: ps := by
+  induction ps generalizing p with
+  | nil =>
+    have hsp : Py.isSpace ' ' = true := by decide
+    have hd : p.dropWhile Py.isSpace = p := dropWhile_head_false' (fun c hc => hp c (List.mem_of_mem_head? hc))
+    simp [piecesOf, mimeTrim, hsp, hd]
+  | cons q qs ih =>
+    have hsp : Py.isSpace ' ' = true := by decide
+    have hd : p.dropWhile Py.isSpace = p := dropWhile_head_false' (fun c hc => hp c (List.mem_of_mem_head? hc))
+    simp only [piecesOf, mimeTrim, ↓reduceIte, List.dropWhile_cons, hsp, hd, rstrip_noSpace p hp]
+    rw [ih q (hps q (by simp)) (fun r hr => hps r (by simp [hr]))]
+
+/-- `_mime_split_re.split` of a well-formed media type text gives its type, subtype and parameters -/
+theorem mimeSplit_render (t s : Str) (ps : List Str) (ht : NoDelim t) (hs : NoDelim s)
+    (hps : ∀ p ∈ ps, NoDelim p) : mimeSplit (renderMime t s ps) = t :: s :: ps := by
+  unfold mimeSplit renderMime
+  rw [mimePieces_run t _ [] ht.noSlashSemi]
+  simp only [mimePieces, BEq.rfl, ↓reduceIte, List.append_nil, List.reverse_reverse]
+  rw [mimePieces_params s [] ps hs.noSlashSemi (fun p hp => (hps p hp).noSlashSemi)]
+  simp only [List.reverse_nil, List.nil_append, mimeTrim, Bool.false_eq_true, ↓reduceIte]
+  have hsS : ∀ c ∈ s, Py.isSpace c = false := fun c hc => (hs c hc).2.2
+  have hpS : ∀ q ∈ ps, ∀ c ∈ q, Py.isSpace c = false := fun q hq c hc => (hps q hq c hc).2.2
+  cases ps with
+  | nil => simp [piecesOf, mimeTrim]
+  | cons p ps =>
+    simp only [piecesOf, mimeTrim, Bool.false_eq_true, ↓reduceIte, rstrip_noSpace s hsS]
+    rw [mimeTrim_params p ps (hpS p (by simp)) (fun r hr => hpS r (by simp [hr]))]
+
+/-- ASCII-lower-case text: `str.lower()` leaves it alone -/
+def IsLower (x : Str) : Prop := lowerA x = x
+
+theorem lowerA_render (t s : Str) (ps : List Str) (ht : IsLower t) (hs : IsLower s)
+    (hps : ∀ p ∈ ps, IsLower p) : lowerA (renderMime t s ps) = renderMime t s ps := by
+  unfold IsLower lowerA at *
+  have hpt : (paramsText ps).map Char.toLower = paramsText ps := by
+    induction ps with
+    | nil => rfl
+    | cons p ps ih =>
+      have h1 := hps p (by simp)
+      have h2 := ih (fun q hq => hps q (by simp [hq]))
+      simp only [paramsText, List.flatMap_cons, List.map_append, List.map_cons] at h2 ⊢
+      rw [h1, h2]
+      rfl
+  simp only [renderMime, List.map_append, List.map_cons, ht, hs, hpt]
+  rfl
+
+theorem mimeNorm_render (t s : Str) (ps : List Str) (ht : NoDelim t) (hs : NoDelim s)
+    (hps : ∀ p ∈ ps, NoDelim p) (lt : IsLower t) (ls : IsLower s) (lps : ∀ p ∈ ps, IsLower p) :
+    mimeNorm (renderMime t s ps) = ⟨t, s, ps⟩ := by
+  unfold mimeNorm
+  rw [lowerA_render t s ps lt ls lps, mimeSplit_render t s ps ht hs hps]
+
+theorem hasSlash_render (t s : Str) (ps : List Str) : hasSlash (renderMime t s ps) = true := by
+  simp [hasSlash, renderMime]
+
+
 end Wz.Accept
